@@ -13,14 +13,15 @@ RULE = ('a case = 1-2 responder stacks with 1-3 CAs each, every CA in one of the
         'operational by bypass / cannot-claim / moved after a loss, plus a requester stack with an operational CA and three without an address (never started, waiting for veto, cannot-claim after a loss); the '
         'requester sends send_request(0, pgn, destination) for requested PGNs on the boundaries of the 18-bit space (0, EE00, EA00, EEFF, FFFF, 10000, '
         '1EE00, 1FFFF, 3FFFF, each PF boundary, data page 0/1 of the requested PGN) and random ones, to every held address, the global address and '
-        'unowned addresses; the address-less CA requests the address-claim PGN from SA 254; a scripted node sends an ordinary request from SA 254; '
+        'unowned addresses; in an eighth of the cases a scripted requester reacts at once, on a zero-latency bus, to the very first address claim of a CA (its two requests are handled inside the send call of that claim, when the CA has just become operational); the address-less CA requests the address-claim PGN from SA 254; a scripted node sends an ordinary request from SA 254; '
         'oracle = request callbacks (1-2 subscribers per CA, plus one that was unsubscribed again) fired exactly at the operational CAs owning the destination (all for 255), once each per live subscriber, with (requester address, '
         'destination, requested PGN); a request for EE00 is answered by exactly those CAs with an address-claimed frame (PGN EE00 to 255, SA = held '
         'address, 8 NAME bytes), no callback; non-trivial = >= 1 callback and >= 1 claim answer expected; distinct = configuration')
 ASSUMPTIONS = ['send_request is called with data_page=0 (the Request PG exists on page 0 only); the data page of the *requested* PGN is exercised',
                'expected sets come from the harness\'s own record of CA states']
 MIN_OBS = {'requests_sent': {'quick': 20000, 'thorough': 400000}, 'callbacks_expected': {'quick': 10000, 'thorough': 200000},
-           'claim_answers_expected': {'quick': 1500, 'thorough': 30000}, 'requests_to_unowned': {'quick': 3000, 'thorough': 60000}}
+           'claim_answers_expected': {'quick': 1500, 'thorough': 30000}, 'requests_to_unowned': {'quick': 3000, 'thorough': 60000},
+           'reactive_cases': {'quick': 60, 'thorough': 2000}}
 
 CA_STATES = ['none', 'wait_veto', 'normal', 'bypass', 'cannot', 'moved']
 BOUNDARY_PGNS = [0, 1, 0xFF, 0x100, 0xEA00, 0xEAFF, 0xEE00, 0xEEFF, 0xEE01, 0xEF00, 0xF000, 0xFECA, 0xFFFF, 0x10000, 0x1EE00, 0x1EA00, 0x1F000, 0x1FFFF,
@@ -38,13 +39,17 @@ def cases(tier, seed):
         if i < len(CA_STATES):
             stacks = [[CA_STATES[i]]]
         out.append(dict(stacks=stacks, seed=rng.randrange(1 << 30)))
+    # a requester that reacts to the CA's very first address claim at once, on a zero-latency bus: its requests are handled inside the send call
+    # of that claim (the CA is operational from the instant its claim for an address below 128 is on the bus)
+    for i in range(n // 8):
+        out.append(dict(stacks=[[rng.choice(['normal', 'cannot', 'moved'])]], react=True, seed=rng.randrange(1 << 30)))
     return out
 
 
 def run_case(case):
     rng = random.Random(case['seed'])
     layer = 'j1939-21'
-    W = World(case['seed'], layer, (0.00005, 0.0003), rng.choice([0.0, 0.0, 0.5]))
+    W = World(case['seed'], layer, (0.00005, 0.0003), 1.0 if case.get('react') else rng.choice([0.0, 0.0, 0.5]))
     sim = W.sim
     j = W.j1939
     ST = j.ControllerApplication.State
@@ -84,6 +89,21 @@ def run_case(case):
                 sim.at(0.1, ca.start, 0.001)
                 if st in ('cannot', 'moved'):
                     sim.at(0.4, X.send, C.make_id(6, 0, C.PF_ADDRESS_CLAIM, 255, pref), LOW)
+    react = {}
+    if case.get('react'):
+        c0 = cas[0]
+        q_addr = fresh(2, 120)
+
+        class Reactor(ScriptNode):
+            def on_frame(self, fr):
+                idf = C.split_id(fr.can_id)
+                if fr.src == 'S0' and idf['pf'] == C.PF_ADDRESS_CLAIM and idf['sa'] == c0['pref'] and not react:
+                    react.update(t=sim.now, n0=len(W.bus.frames), state=c0['ca'].state, addr=c0['ca'].device_address)
+                    self.send(C.make_id(6, 0, C.PF_REQUEST, 255, q_addr), C.request_payload(0xEE00))
+                    self.send(C.make_id(6, 0, C.PF_REQUEST, c0['pref'], q_addr), C.request_payload(0xFECA))
+                    react['n1'] = len(W.bus.frames)
+                    react['calls'] = list(c0['calls'])
+        Reactor(W.bus, 'Q')
     R = W.stack('R')
     r_addr = fresh(2, 120)
     req = W.ca(R, r_addr, name_value=C.name_value(identity_number=777), bypass=True)
@@ -98,6 +118,24 @@ def run_case(case):
     req_wv = W.ca(R, r4_pref, name_value=C.name_value(identity_number=780), bypass=False)
     sim.at(0.985, req_wv.start, 0.001)
     W.run(1.0)
+    if case.get('react'):
+        c0 = cas[0]
+        if not react:
+            viol.add('reactive_setup', 'the CA never put its initial claim for %d on the bus' % c0['pref'], **tag)
+        else:
+            # everything S0 emitted while the two reactive requests were being handled (re-entrantly, inside the send of the claim)
+            ans = [f for f in W.bus.frames[react['n0']:react['n1']] if f.src == 'S0']
+            want = [(c0['pref'], C.name_bytes(c0['name']))]
+            got = [(C.split_id(f.can_id)['sa'], f.data) for f in ans if C.split_id(f.can_id)['pf'] == C.PF_ADDRESS_CLAIM]
+            if got != want or len(ans) != len(got):
+                viol.add('claim_answer', 'request for the address-claim PGN handled inside the send of the CA\'s initial claim for %d: answers %s, expected %s'
+                         % (c0['pref'], [f.brief() for f in ans], [(a, b.hex()) for a, b in want]), how='reactive', **tag)
+            exp = [(q_addr, c0['pref'], 0xFECA)] * c0['nsubs']
+            gotc = [(a, b, p) for (t, a, b, p) in react.get('calls', [])]
+            if gotc != exp:
+                viol.add('request_callbacks', '%s: request FECA to %d handled inside the send of its initial claim -> callbacks %s, expected %s'
+                         % (c0['label'], c0['pref'], gotc, exp), how='reactive', **tag)
+            reactive_checked = 1
     if req_cc.state != ST.CANNOT_CLAIM or req_wv.state != ST.WAIT_VETO:
         W.close()
         return dict(violations=[], inconclusive='could not drive the address-less requesters into their states (%r, %r)' % (req_cc.state, req_wv.state),
@@ -117,7 +155,7 @@ def run_case(case):
             return dict(violations=[], inconclusive='could not drive %s into state %s (is %r at %r)' % (c['label'], st, c['ca'].state, c['ca'].device_address),
                         sig='setup', nontrivial=False, obs={}, sample=None)
     held = {c['held']: c for c in cas if c['held'] is not None}
-    obs = dict(requests_sent=0, callbacks_expected=0, claim_answers_expected=0, requests_to_unowned=0)
+    obs = dict(requests_sent=0, callbacks_expected=0, claim_answers_expected=0, requests_to_unowned=0, reactive_cases=1 if react else 0)
     dests = sorted(held) + [255, 255, 254] + [c['pref'] for c in cas if c['held'] is None] + [fresh(2, 250) for _ in range(2)]     # 254: the null address is nobody's
     pgns = BOUNDARY_PGNS + [rng.randrange(1 << 18) for _ in range(10)] + [pf << 8 for pf in (0xEF, 0xF0, 0xEB, 0xEC)]
 
